@@ -58,6 +58,8 @@ def run_one(case):
 FIXTURES = (
     {'hash_type': 'sha256', 'level': 1, 'objs': [('text', 40, 1, 'plain'), ('text', 90, 2, 'z'), ('random', 33, 3, 'plain'), ('zeros', 70, 4, 'z'), ('text', 25, 5, 'loose')]},
     {'hash_type': 'sha1', 'level': 9, 'objs': [('repeat', 120, 1, 'z'), ('random', 20, 2, 'z'), ('text', 1, 3, 'plain'), ('text', 0, 4, 'plain'), ('mixed', 30, 5, 'loose'), ('text', 12, 6, 'both')]},
+    # several pack files (small pack_size_target): damage in a pack that is not the last one
+    {'hash_type': 'sha256', 'level': 5, 'pack_size_target': 40, 'objs': [('text', 45, 1, 'plain'), ('text', 60, 2, 'z'), ('random', 25, 3, 'plain'), ('random', 30, 4, 'plain'), ('text', 50, 5, 'z')]},
 )
 
 
@@ -66,7 +68,8 @@ def build_fixture(root, fixture):
 
     path = os.path.join(root, 'fx')
     cont = Container(path)
-    cont.init_container(hash_type=fixture['hash_type'], compression_algorithm=f"zlib+{fixture['level']}")
+    cont.init_container(hash_type=fixture['hash_type'], compression_algorithm=f"zlib+{fixture['level']}",
+                        pack_size_target=fixture.get('pack_size_target', 4 * 1024**3))
     model = {}
     for cls, size, seed, form in fixture['objs']:
         data = content_of([cls, size, seed])
